@@ -199,6 +199,18 @@ class Gen:
     def int_expr(self, ivars, depth):
         """ivars: list of (name, width)"""
         r = self.r
+        if getattr(self, "no_invert", False) and depth > 0:
+            # statement-level programs: `~x` is the one operator whose VALUE depends on the static width of x, and the library widens a
+            # variable at an if/else join (the wider arm's type) where the dynamically typed reference does not: excluded there
+            for _ in range(8):
+                e = self._int_expr(ivars, depth)
+                if "~" not in e:
+                    return e
+            return ivars[0][0]
+        return self._int_expr(ivars, depth)
+
+    def _int_expr(self, ivars, depth):
+        r = self.r
         if depth == 0 or r.random() < 0.3:
             if r.random() < 0.25:
                 return str(r.choice((0, 1, 2, 3, 5)))
@@ -243,6 +255,7 @@ class Gen:
         variable included), for loops over range / tuples, tuple swaps - the constructs ast2ast rewrites away"""
         r = self.r
         kind = "bool" if idx % 2 == 0 else "int"
+        self.no_invert = True
         if kind == "bool":
             params = ["a: bool", "b: bool", "c: bool"][: r.choice((2, 3, 3))]
             vs = [p.split(":")[0] for p in params]
